@@ -140,3 +140,11 @@ From Scrapli Require Import DecideLang GeneratedSkel RpcSrc.
 Theorem C08_send_rpc_is_source : rpc_table_ok = true /\ tests_known send_rpc_code send_rpc_known = true.
 Proof. exact send_rpc_is_source. Qed.
 Print Assumptions C08_send_rpc_is_source.
+
+(* the NETCONF read loop as translated: one round for all 512 combinations of what it can meet —
+   append first, keep without a delimiter, cut the echo at the first delimiter of the session's
+   version, else file under the message-id (when not 0) and empty the buffer (NcSession.nc_examine) *)
+From Scrapli Require Import NcReadSrc.
+Theorem C08_read_round_is_source : nc_read_table_ok = true.
+Proof. exact nc_read_round_is_source. Qed.
+Print Assumptions C08_read_round_is_source.
